@@ -435,6 +435,19 @@ static double some_double(Rng &r) {
     return vals[k];
 }
 // appends one directive to fmt; pushes its args. wide: format is for the wide printf family.
+// a directive assembled from its parts: repeated flags, width, precision. One in three is long (32..100 bytes: the
+// engine hands a copy of the directive to libc, and an implementation may size that copy's storage by its length)
+static std::string long_directive(Rng &r, const char *lenmod, const char *convs) {
+    std::string d = "%";
+    static const char fl[] = "-+ #0";
+    int nflags = r.chance(1, 3) ? 26 + r.below(70) : r.below(4);
+    for (int i = 0; i < nflags; i++) d += fl[r.below(5)];
+    if (r.chance(1, 2)) d += std::to_string(1 + r.below(40));
+    if (r.chance(1, 2)) d += "." + std::to_string(r.below(14));
+    d += lenmod;
+    d += convs[r.below((uint32_t)strlen(convs))];
+    return d;
+}
 static void add_directive(Bld &b, std::string &fmt, std::vector<FmtArg> &args, bool wide, bool stream, int want /* -1 any */) {
     Rng &r = b.r;
     int room = 3 - (int)args.size();
@@ -473,7 +486,10 @@ static void add_directive(Bld &b, std::string &fmt, std::vector<FmtArg> &args, b
         if (r.chance(1, 14)) args.push_back({3, -1});
         else {
             bool na = b.locale == 1 ? r.chance(1, 2) : r.chance(1, 5);
-            std::vector<uint32_t> w = rwstr(r, r.below(30), na ? 1 : 0);
+            // mostly short; one in six long (an implementation may keep short conversions in an automatic buffer and
+            // go to the heap only beyond some threshold: both sides of any such threshold have to be reached)
+            uint32_t wl = (!wide && r.chance(1, 6)) ? 40 + r.below(r.chance(1, 3) ? 700 : 120) : r.below(30);
+            std::vector<uint32_t> w = rwstr(r, wl, na ? 1 : 0);
             args.push_back({3, (int64_t)b.put(wbytes(w), 4, (uint32_t)(w.size() + 1) * 4)});
         }
         break;
@@ -501,7 +517,8 @@ static void add_directive(Bld &b, std::string &fmt, std::vector<FmtArg> &args, b
     }
     case 8: case 9: { // long double
         static const char *d[] = {"%Lf", "%Le", "%Lg", "%La", "%.3Lf", "%10.2Le", "%LG", "%LA", "%+.1Lf"};
-        fmt += d[r.below(9)];
+        if (r.chance(2, 3)) fmt += d[r.below(9)];
+        else fmt += long_directive(r, "L", "feEgGaA");
         args.push_back({2, dbits(some_double(r))});
         break;
     }
@@ -580,7 +597,7 @@ static bool gen_fmt(Bld &b, bool viol, bool wide) {
         }
     } else {
         int k = r.below(10);
-        cap = k < 6 ? 8 + r.below(120) : k < 8 ? 1 + r.below(12) : 200 + r.below(400);
+        cap = k < 6 ? 8 + r.below(120) : k < 8 ? 1 + r.below(12) : k < 9 ? 200 + r.below(400) : 600 + r.below(3000);
     }
     // %lc first copies the converted character (up to 5 bytes) to the START of dest, whatever dmax is (an unrelated
     // out-of-bounds write, C01): give such calls room, so that it does not spill into the neighbouring operand
@@ -935,7 +952,7 @@ bool gen_alloc_op(Rng &r, TaskPlan &tp, uint32_t *top, int locale) {
             add_directive(b, fmt, args, false, stream, want);
             if (want == 6 && args.size() && args.back().cls == 1) { // force %a for doubles (the only double path that allocates)
                 fmt.resize(before);
-                fmt += r.chance(1, 2) ? "%a" : "%.3A";
+                fmt += r.chance(1, 3) ? "%a" : r.chance(1, 2) ? "%.3A" : long_directive(r, "", "aA");
             }
             fmt += i + 1 < nd || r.chance(4, 5) ? rstr(r, 1 + r.below(4), 4) : "";
         }
@@ -946,7 +963,7 @@ bool gen_alloc_op(Rng &r, TaskPlan &tp, uint32_t *top, int locale) {
             if (r.chance(1, 2)) { b.op.f.wr_fail_at = r.below(24); b.op.f.wr_errno = 28; }
             if (r.chance(1, 4)) b.op.f.wr_chunk = 1 + r.below(4);
         } else {
-            uint32_t cap = r.chance(1, 3) ? 2 + r.below(12) : 40 + r.below(200);
+            uint32_t cap = r.chance(1, 3) ? 2 + r.below(12) : r.chance(1, 4) ? 300 + r.below(3000) : 40 + r.below(200);
             uint32_t doff = b.put(rstr(r, 1, 0) + std::string(1, '\0'), 1, cap);
             b.op.a[0] = doff;
             b.op.a[1] = cap;
